@@ -1263,6 +1263,8 @@ struct Driver {
         // K27: the restat tool runs without the manifest; when the log it rewrites is due for
         // recompaction, "dead" is decided by the disk alone and the record of a declared output
         // whose file is missing goes (harmless: a missing output is rebuilt anyway)
+        // (the restat tool's own recompaction may drop what is neither declared nor on disk)
+        if (restat && !declared.count(kv.first) && !w.k.Exists(kv.first)) continue;
         if (restat && declared.count(kv.first) && !w.k.Exists(kv.first))
           w.Report("C08", "restat_recompaction_drops_missing_output", what + " dropped the record of " + kv.first + ", which the manifest still declares; its file is missing and the rewritten log was due for recompaction");
         else
